@@ -33,7 +33,7 @@ func vDifference(tag string) SpecDifference {
 	d := SpecDifference{}
 	d.Code = SpecChangeCode(vInt(tag+".code", 0, 53))
 	d.Compatibility = Compatibility(vInt(tag+".compat", 0, 2))
-	d.DiffInfo = vOneOf(tag+".info", "", "a", "b")
+	d.DiffInfo = vOneOf(tag+".info", "", "a", "b", "A", " a")
 	d.DifferenceLocation.URL = vOneOf(tag+".url", "/a", "/b")
 	d.DifferenceLocation.Method = vOneOf(tag+".method", "get", "post")
 	d.DifferenceLocation.Response = vInt(tag+".response", 0, 2) * 200
